@@ -468,6 +468,7 @@ fn job_scenario(size: i64, slide: i64, scripts: Vec<Vec<(i64, i64)>>, bound: usi
         shards: 1,
         nontrivial: true,
         unbounded: false,
+        loop_body: false,
     }
 }
 
